@@ -284,6 +284,8 @@ class Exec:
     def as_int(self, v):
         if v.ty == "int":
             return v.t
+        if v.ty == "bv64":
+            return S.bv_to_int_term(v.t)
         if v.ty == "bool":
             return z3.If(v.t, z3.IntVal(1), z3.IntVal(0))
         if v.ty == "py":
@@ -472,6 +474,8 @@ class Exec:
             raise Unsupported("ite over host values")
         if va.ty == vb.ty and va.ty not in ("dict", "none", "obj"):
             return V(va.ty, z3.If(cond, va.t, vb.t))
+        if "bv64" in (va.ty, vb.ty) and {va.ty, vb.ty} <= {"bv64", "int", "bool"}:
+            return V("bv64", z3.If(cond, S.to_bv64(va), S.to_bv64(vb)))
         if va.ty == vb.ty == "dict":
             return V("dict", z3.If(cond, va.t, vb.t))
         return V("py", z3.If(cond, box(va), box(vb)))
